@@ -1280,6 +1280,8 @@ def main(run):
     # the regenerated definitions evaluated on the same recorded calls (validates the translator itself)
     if gen_corr:
         sub = [i for i, t in enumerate(terms) if t.split(" ", 1)[0] in GEN_KINDS]
+        if run.tier == "quick":          # the many small exhaustive selSPEA2 cases: every third one is re-evaluated
+            sub = [i for n, i in enumerate(sub) if not terms[i].startswith("CSpea2Q") or n % 3 == 0]
         t2 = time.time()
         run.correspond("regen", "C07_gen", [terms[i] for i in sub], [dict(cases[i], evaluated="regenerated definitions") for i in sub],
                        check="check_gen", shard=run.scale(60, 120))
